@@ -113,6 +113,10 @@ def sample_faults(faults, seed, descs):
             # string, scalars, each also behind a reference) is applied in every quick run
             out.append((s, fd))
             continue
+        if fd["kind"].startswith("off_"):
+            # file positions (startxref, Prev, XRefStm): few sites, every fault and both offset styles in every run
+            out.append((s, fd))
+            continue
         key = (s,) + stratum(fd)
         if fd["kind"] == "rawstr":
             owner = fd["site"].split("/")[0]
